@@ -47,15 +47,34 @@ def gen_mpsc(rng, tier):
     for _ in range(n_cases(tier, 500, 6000)):
         nprod = rng.choice([2, 2, 3, 3, 4])
         spare = rng.choice([2, 3]) * nprod if rng.random() < 0.7 else rng.choice([0, 1, 2])
-        cases.append({"args": [spare, _script(rng, tier, nprod, [1], peek=True)], "env": sched_env(rng)})
+        cases.append(_null_payload(rng, {"args": [spare, _script(rng, tier, nprod, [1], peek=True)], "env": sched_env(rng)}))
     return cases
+
+
+def _null_payload(rng, case, share=0.3):
+    """for a share of the cases one pushed item travels through the real code as a NULL payload
+    (legal: payloads are opaque `void*`; only the NODE returned by trypop says "not empty"): the
+    harness stores payload word v - k and the runtime prints the data cells plus k again
+    (VR_BIAS), so the model — to which payloads are opaque — keeps seeing the distinct positive
+    abstract values.  k is one of the pushed values, mostly not the first one of its producer
+    (the initial stub is zero-filled, which hides a payload that was not copied)."""
+    if rng.random() >= share:
+        return case
+    script = [a for a in case["args"] if isinstance(a, str) and "|" in a][0]
+    vals = []
+    for prod in script.split("|")[1:]:
+        pv = [int(op[1:]) for op in prod.split(",") if op.startswith("p")]
+        vals += pv[1:] if len(pv) > 1 and rng.random() < 0.85 else pv
+    if vals:
+        case["env"] = dict(case["env"], VR_BIAS=".data:%d" % rng.choice(vals))
+    return case
 
 
 def gen_spsc(rng, tier):
     cases = []
     for _ in range(n_cases(tier, 250, 3000)):
         spare = rng.choice([0, 1, 2, 3])
-        cases.append({"args": [spare, _script(rng, tier, 1, [1])], "env": sched_env(rng)})
+        cases.append(_null_payload(rng, {"args": [spare, _script(rng, tier, 1, [1])], "env": sched_env(rng)}))
     return cases
 
 
@@ -65,7 +84,7 @@ def gen_mpscr(rng, tier):
         nprod = rng.choice([2, 2, 3, 4])
         np_ = nprod + (1 if rng.random() < 0.2 else 0)  # sometimes an unused producer slot
         spare = rng.choice([2, 3]) * nprod if rng.random() < 0.7 else rng.choice([0, 1, 2])
-        cases.append({"args": [np_, spare, _script(rng, tier, nprod, [1])], "env": sched_env(rng)})
+        cases.append(_null_payload(rng, {"args": [np_, spare, _script(rng, tier, nprod, [1])], "env": sched_env(rng)}))
     # many producer numbers, few threads: the racing producers' numbers are 256 or 65536 apart
     # (a narrowed index would make them share one sub-queue)
     for _ in range(n_cases(tier, 40, 400)):
